@@ -16,7 +16,10 @@ Norm(cfg, T0, v, omitPos) == LET T == Resolve(T0) IN
     [] T.k = "null" -> IF ~v.valid THEN Zero(T) ELSE [valid |-> TRUE, v |-> Norm(cfg, NullBase(T.of), v.v, FALSE)]
     [] T.k = "ptr" -> IF v.nil \/ (IsRepeated(cfg, T.e) /\ Omit(cfg, T.e, v.v)) \/ EmptyRepMap(cfg, T.e, v.v)
                       THEN Zero(T)          \* an empty repeated field has no representation, nor has a pointer to one
-                      ELSE [nil |-> FALSE, v |-> Norm(cfg, T.e, v.v, FALSE)]
+                      ELSE LET inner == Norm(cfg, T.e, v.v, FALSE) IN
+                           \* ... nor has a pointer to a repeated slice all of whose elements are dropped (nil pointers leave no frame)
+                           IF IsRepeated(cfg, T.e) /\ Resolve(T.e).k = "slice" /\ inner.e = <<>> THEN Zero(T)
+                           ELSE [nil |-> FALSE, v |-> inner]
     [] T.k = "slice" -> LET es == NormElems(cfg, T.e, v.e, 1, IsRepeated(cfg, T)) IN
                         IF es = <<>> THEN Zero(T) ELSE [nil |-> FALSE, e |-> es]
     [] T.k = "map" -> IF v.nil \/ (T.proto /\ v.m = <<>>) THEN Zero(T)
@@ -25,6 +28,7 @@ Norm(cfg, T0, v, omitPos) == LET T == Resolve(T0) IN
     [] T.k = "struct" -> [i \in 1..Len(T.f) |-> IF T.f[i].enc THEN Norm(cfg, T.f[i].t, v[i], TRUE) ELSE Zero(T.f[i].t)]
     [] T.k \in {"jsonobj", "jsonarr"} -> NormJ(v)
     [] T.k = "unsup" -> <<>>
+    [] T.k = "refid" -> [Zero(T) EXCEPT ![1] = v[1]]        \* only the first field travels
 \* rep: the slice is written in the repeated-field form, where a nil element leaves no frame at all
 NormElems(cfg, E0, es, i, rep) == LET E == Resolve(E0) IN
   IF i > Len(es) THEN <<>>
@@ -52,6 +56,7 @@ Eq(T0, a, b) == LET T == Resolve(T0) IN
     [] T.k = "struct" -> \A i \in 1..Len(T.f) : Eq(T.f[i].t, a[i], b[i])
     [] T.k \in {"jsonobj", "jsonarr"} -> EqJ(a, b)
     [] T.k = "unsup" -> TRUE
+    [] T.k = "refid" -> Eq(BEnv[T.n], a, b)
 EqMap(T, am, bm) == \A i \in 1..Len(am) : \E j \in 1..Len(bm) :
                         Eq(T.key, am[i][1], bm[j][1]) /\ Eq(T.val, am[i][2], bm[j][2])
 EqJ(a, b) ==
@@ -78,6 +83,7 @@ Diff(T0, a, b) == LET T == Resolve(T0) IN
                            ELSE LET same == {<<i, j>> \in (1..Len(a.m)) \X (1..Len(b.m)) : Eq(T.key, a.m[i][1], b.m[j][1]) /\ ~Eq(T.val, a.m[i][2], b.m[j][2])} IN
                                 IF same = {} THEN "{keys}" ELSE LET p == CHOOSE x \in same : TRUE IN "{}" \o Diff(T.val, a.m[p[1]][2], b.m[p[2]][2])
          [] T.k = "struct" -> DiffFields(T, a, b, 1)
+         [] T.k = "refid" -> "<ref>" \o Diff(BEnv[T.n], a, b)
          [] T.k = "null" -> IF a.valid # b.valid THEN "?valid" ELSE "?value"
          [] OTHER -> T.k
 DiffSeq(E, as, bs, i) == IF i > Len(as) THEN "" ELSE
